@@ -10,7 +10,7 @@ From PTK Require Import Lib.Sx Lib.Py Lib.C19_Str Gen.C19_Palette
      Proofs.C19_FromDictFacts Proofs.C19_TransformFacts Proofs.C19_CacheFacts
      Model.C19_Merged Proofs.C19_MergedFacts Model.C19_Memoized Proofs.C19_MemoizedFacts
      Model.C19_Xterm Proofs.C19_XtermFacts Proofs.C19_EncodeFacts
-     Proofs.C19_NoinheritFacts Proofs.C19_Vt100Facts.
+     Proofs.C19_NoinheritFacts Proofs.C19_Vt100Facts Model.C19_Nested Proofs.C19_NestedFacts.
 Import ListNotations.
 Open Scope Z_scope.
 
@@ -487,6 +487,46 @@ Theorem C19_vt100_after_any_history : forall pre depth a,
   run_queries EMPTY_W (pre ++ [QEsc depth a]) = map pure_answer pre ++ [AStr (escape_code depth a)].
 Proof. exact vt100_after_any_history. Qed.
 Print Assumptions C19_vt100_after_any_history.
+
+(* ---- round 7: nested dynamic styles -------------------------------------- *)
+(* A DynamicStyle may return a persistent object that is itself a _MergedStyle or a
+   DynamicStyle (Model/C19_Nested.v; two layers).  The invalidation hash
+   determines the rules across DIFFERENT objects and environments ... *)
+Theorem C19_hash_rules_cross : forall pool t t' e e',
+  inv_hash e t = inv_hash e' t' -> style_rules pool e t = style_rules pool e' t'.
+Proof. exact hash_rules_cross. Qed.
+Print Assumptions C19_hash_rules_cross.
+
+(* ... so for an outer object (whose dynamic members may return inner merged /
+   dynamic objects: tuple hashes inside tuple hashes) equal hashes in two
+   situations mean equal style_rules ... *)
+Theorem C19_nested_hash_determines_rules : forall pool inner t e0 e1 e0' e1',
+  inv_hash1 e0 e1 inner t = inv_hash1 e0' e1' inner t ->
+  style_rules1 pool e0 e1 inner t = style_rules1 pool e0' e1' inner t.
+Proof. exact hash1_determines_rules. Qed.
+Print Assumptions C19_nested_hash_determines_rules.
+
+(* ... and after ANY history of switches of inner and outer slots, look-ups on
+   the outer objects (which go through the inner objects' own caches) and
+   look-ups on the inner objects directly, every answer is that of objects all
+   built anew for the sheets as they are now. *)
+Theorem C19_nested_cache_transparent : forall pool inner objs es st,
+  Forall2 (cache_inv pool) inner (ns_c0 st) ->
+  Forall2 (cache1_inv pool inner) objs (ns_c1 st) ->
+  run_events1 pool inner objs st es = run_events1_fresh pool inner objs (ns_env0 st) (ns_env1 st) es.
+Proof. exact nested_cache_transparent. Qed.
+Print Assumptions C19_nested_cache_transparent.
+
+Theorem C19_nested_cache_transparent_fresh : forall pool inner objs es,
+  run_events1 pool inner objs (EMPTY_NS inner objs) es = run_events1_fresh pool inner objs [] [] es.
+Proof. exact nested_cache_transparent_fresh. Qed.
+Print Assumptions C19_nested_cache_transparent_fresh.
+
+Theorem C19_fresh_nested_is_concat : forall pool e0 e1 inner l s,
+  fresh_lookup1 pool e0 e1 inner (N1Merged l) s
+  = style_get (flat_map (style_rules1 pool e0 e1 inner) l) s DEFAULT_ATTRS.
+Proof. exact fresh_nested_is_concat. Qed.
+Print Assumptions C19_fresh_nested_is_concat.
 
 (* The theorems about the float kernels on Coq's primitive binary64 floats
    (C19_opposite_all_colours, C19_opposite_kernel_ok, C19_sgr_roundtrip_swap_real,
